@@ -70,6 +70,7 @@ def run_task(task):
 def run_task_(task):
     pid, tier, repo, workdir, modname, sub = task
     ctx = core.Ctx(repo, tier, workdir)
+    ctx.own_module = (modname == PROPERTIES[pid][0])
     mod = importlib.import_module('smtlint.rules.' + modname)
     label = modname if sub is None else '%s:%s' % (modname, sub)
     args = () if sub is None else (sub,)
